@@ -596,8 +596,10 @@ func (w *World) serverLoop() {
 				w.closeReturned(ss)
 				return
 			}
+			used := w.noiseS.VerifPattern()
 			w.mu.Lock()
 			ss.Secured, ss.HsDone = sec, true
+			ss.Pattern = used // the pattern the handshake really ran
 			w.mu.Unlock()
 			w.runApp(ss, rd.S2C, rd.C2S, "S2C", "C2S", rd.Closer == "server")
 		})
@@ -677,8 +679,10 @@ func (w *World) clientLoop() {
 				w.closeReturned(ss)
 				return
 			}
+			used := w.noiseC.VerifPattern()
 			w.mu.Lock()
 			ss.Secured, ss.HsDone = sec, true
+			ss.Pattern = used // the pattern the handshake really ran
 			w.mu.Unlock()
 			ok := w.runApp(ss, rd.C2S, rd.S2C, "C2S", "S2C", rd.Closer == "client")
 			if ok && w.sc.Intruder == "after" {
